@@ -137,3 +137,31 @@ func scenarioPublishDuringLastMergeDelete(c *hx.Ctx, idx int) error {
 	_ = idx
 	return nil
 }
+
+// probeCompaction is a development aid: does a level compaction happen after n in-order flushes?
+func probeCompaction(c *hx.Ctx) error {
+	root := engx.ScratchDir("c04p")
+	defer os.RemoveAll(root)
+	sh, err := engine.VerifOpenShard(root, 1)
+	if err != nil {
+		return err
+	}
+	sh.DetachFromCompactor()
+	for t := 0; t < 10; t++ {
+		if e := sh.Write(engx.ToInflux([]engx.Row{row("m0", 0, t, t)})); e != nil {
+			return e
+		}
+		sh.Flush()
+	}
+	fmt.Fprintln(os.Stderr, "files before:", len(sh.Files("m0")))
+	e := sh.LevelCompact(0)
+	fmt.Fprintln(os.Stderr, "level compact:", e, "files after:", len(sh.Files("m0")))
+	time.Sleep(time.Second)
+	fmt.Fprintln(os.Stderr, "a second later:", len(sh.Files("m0")))
+	e = sh.FullCompact()
+	fmt.Fprintln(os.Stderr, "full compact:", e, "files after:", len(sh.Files("m0")))
+	for _, f := range sh.Files("m0") {
+		fmt.Fprintln(os.Stderr, "  ", f.Name, f.Level, f.Order)
+	}
+	return sh.Close()
+}
